@@ -97,9 +97,12 @@ pub trait GarnishCloneHandler<Data: GarnishData> {
         // Clone byte list by iterating and manually building the structure
         let iter = from.get_byte_list_iter(addr.clone(), Extents::new(Data::Number::zero(), Data::Number::max_value()))?;
         let bytes: Vec<Data::Byte> = iter.collect();
-        // Build byte list manually: create header then add bytes
-        // Use parse_add_byte_list by converting bytes to string representation
-        let s = format!("[{}]", bytes.iter().map(|b| b.to_string()).collect::<Vec<_>>().join(", "));
+        // spell the bytes the way parse_add_byte_list reads them: the numeric form between triple quotes, two quotes when empty
+        let s = if bytes.is_empty() {
+            "''".to_string()
+        } else {
+            format!("'''{}'''", bytes.iter().map(|b| b.to_string()).collect::<Vec<_>>().join(" "))
+        };
         to.parse_add_byte_list(&s)
     }
 
